@@ -42,6 +42,10 @@ def main():
                 out.append("ok " + str(h.get_backend()))
             elif kind == "has":
                 out.append("ok " + str(h.has_backend(op[2])))
+            elif kind == "calci":
+                # a checksum with an explicit ident (bcrypt family): [kind, name, secret-hex, ident]
+                hs = h.using(**dict(FIX[name], ident=op[3])).hash(bytes.fromhex(op[2]))
+                out.append("ok " + str(getattr(h, "wrapped", h).get_backend()) + " " + hs)
             elif kind in ("calc", "calcnu"):
                 secret = bytes.fromhex(op[2])
                 if kind == "calcnu":
